@@ -113,7 +113,7 @@ def common(run, modules):
         lok_, llog_ = R.lake_build(run, [lm], timeout=900)
         run.oblige("lake build %s (the word-filtered search over the machine-translated leaf functions is the key search of the table model; the interpreter on the bodies of MapOf.Load / Map.Load printed from the working tree computes it, for every heap and key)" % lm, lok_, llog_)
     if run.pid in ("C11", "C04", "C10"):
-        aok_, alog_ = R.lake_build(run, ["CacheVerif.Proofs.DeepAppend", "CacheVerif.Proofs.CopyRep"], timeout=900)
+        aok_, alog_ = R.lake_build(run, ["CacheVerif.Proofs.DeepAppend", "CacheVerif.Proofs.CopyRep", "CacheVerif.Proofs.StoreSpec"], timeout=900)
         run.oblige("lake build CacheVerif.Proofs.DeepAppend (the interpreter on the body of appendToBucketOf printed from the working tree fills the first free slot of the chain or links a fresh bucket at its end - M3's place - and keeps the meta words representative, for every heap; folded over the entries a resize moves it is M3's copyAll)", aok_, alog_)
     if run.pid == "C08":
         sok_, slog_ = R.lake_build(run, ["CacheVerif.Proofs.DeepSize"], timeout=900)
